@@ -334,7 +334,7 @@ func must(elems []any, nonTerminals []lex.Token, defaultField string) ([]any, []
 	}
 
 	// we consumed 1 terminal, the +
-	return []any{expr.MUST(rest)}, drop(nonTerminals, 1), true
+	return []any{expr.MUST(wrapLiteral(rest, defaultField))}, drop(nonTerminals, 1), true
 }
 
 func mustNot(elems []any, nonTerminals []lex.Token, defaultField string) ([]any, []lex.Token, bool) {
@@ -352,7 +352,7 @@ func mustNot(elems []any, nonTerminals []lex.Token, defaultField string) ([]any,
 		return elems, nonTerminals, false
 	}
 	// we consumed one terminal, the -
-	return []any{expr.MUSTNOT(rest)}, drop(nonTerminals, 1), true
+	return []any{expr.MUSTNOT(wrapLiteral(rest, defaultField))}, drop(nonTerminals, 1), true
 }
 
 func fuzzy(elems []any, nonTerminals []lex.Token, defaultField string) ([]any, []lex.Token, bool) {
@@ -369,7 +369,7 @@ func fuzzy(elems []any, nonTerminals []lex.Token, defaultField string) ([]any, [
 		}
 
 		// we consumed one terminal, the ~
-		return []any{expr.FUZZY(rest, 1)}, drop(nonTerminals, 1), true
+		return []any{expr.FUZZY(wrapLiteral(rest, defaultField), 1)}, drop(nonTerminals, 1), true
 	}
 
 	if len(elems) != 3 {
@@ -397,7 +397,7 @@ func fuzzy(elems []any, nonTerminals []lex.Token, defaultField string) ([]any, [
 	}
 
 	// we consumed one terminal, the ~
-	return []any{expr.FUZZY(rest, idistance)}, drop(nonTerminals, 1), true
+	return []any{expr.FUZZY(wrapLiteral(rest, defaultField), idistance)}, drop(nonTerminals, 1), true
 }
 
 func boost(elems []any, nonTerminals []lex.Token, defaultField string) ([]any, []lex.Token, bool) {
@@ -414,7 +414,7 @@ func boost(elems []any, nonTerminals []lex.Token, defaultField string) ([]any, [
 		}
 
 		// we consumed one terminal, the ^
-		return []any{expr.BOOST(rest, 1.0)}, drop(nonTerminals, 1), true
+		return []any{expr.BOOST(wrapLiteral(rest, defaultField), 1.0)}, drop(nonTerminals, 1), true
 	}
 
 	if len(elems) != 3 {
@@ -442,7 +442,7 @@ func boost(elems []any, nonTerminals []lex.Token, defaultField string) ([]any, [
 	}
 
 	// we consumed one terminal, the ^
-	return []any{expr.BOOST(rest, fpower)}, drop(nonTerminals, 1), true
+	return []any{expr.BOOST(wrapLiteral(rest, defaultField), fpower)}, drop(nonTerminals, 1), true
 }
 
 func rangeop(elems []any, nonTerminals []lex.Token, defaultField string) ([]any, []lex.Token, bool) {
